@@ -90,6 +90,20 @@ Theorem C03_get_log_agrees : forall (md5 : N -> N) (v : ver) (c : ck) (fs : fsys
 Proof. exact get_status_modes_agree_uptodate. Qed.
 Print Assumptions C03_get_log_agrees.
 
+(* since the repair of DependencyStatus (fixL of Model/Status.v: the first reason decides the status) the two modes give
+   the same verdict in EVERY case -- up-to-date, run, error -- in the state reached by any history, whatever
+   definition is asked about (outside histories: up to the TypeError of ill-typed records, Properties/C20.v,
+   C20_info_agrees) *)
+Theorem C03_get_log_agrees_every_verdict : forall (md5 : N -> N) (size_of : N -> Z) (ops : list op) (t : name),
+  let s := run md5 size_of current ops in
+  g_status (get_status md5 current (s_ck s) (s_fs s) (s_db s) t (s_defs s t) true) =
+  g_status (get_status md5 current (s_ck s) (s_fs s) (s_db s) t (s_defs s t) false).
+Proof.
+  intros md5 size_of ops t. cbv zeta. apply get_status_modes_agree_fixL; [reflexivity|].
+  exact (proj2 (no_typeerror_run md5 size_of current eq_refl ops t true)).
+Qed.
+Print Assumptions C03_get_log_agrees_every_verdict.
+
 (* ---- non-vacuity: a history (with an edit, a failed run, a re-added dep) after which the verdict IS up-to-date ---- *)
 Definition d01 : tdef := {| file_dep := [0; 1]%N; targets := [2%N]; uptodate := [URunOnce; UNone]; act_values := []; act_result := None |}.
 Definition d0 : tdef := {| file_dep := [0%N]; targets := []; uptodate := []; act_values := []; act_result := None |}.
